@@ -89,8 +89,14 @@ def _observer_classes():
             super().__init__(dispatcher, subscribe=subscribe)
             self.log = []
 
+        leave_at_next_update = False
+
         def update(self, scheduled_operation):
             self.log.append(entry(self, 0, scheduled_operation))
+            if self.leave_at_next_update:
+                # an observer that has seen what it was waiting for detaches ITSELF, from inside the notification
+                self.leave_at_next_update = False
+                self.dispatcher.unsubscribe(self)
 
         def reset(self):
             self.log.append(entry(self, 1, None))
@@ -102,8 +108,14 @@ def _observer_classes():
             super().__init__(dispatcher, subscribe=subscribe)
             self.log = []
 
+        leave_at_next_update = False
+
         def update(self, scheduled_operation):
             self.log.append(entry(self, 0, scheduled_operation))
+            if self.leave_at_next_update:
+                # an observer that has seen what it was waiting for detaches ITSELF, from inside the notification
+                self.leave_at_next_update = False
+                self.dispatcher.unsubscribe(self)
 
         def reset(self):
             self.log.append(entry(self, 1, None))
@@ -266,10 +278,17 @@ class ImplSession:
         if tag == 7:
             return common.norm(self.snapshot())
         try:
-            if tag == 0:
+            if tag in (0, 12):
                 m = ev[3][0] if ev[3] else None
                 del self.calls[:]
-                d.dispatch(self.op(ev[1:3]), m)
+                if tag == 12:
+                    # [12, j, p, [m], idx]: a dispatch during which the recording observer idx unsubscribes itself
+                    self.objs[ev[4]].leave_at_next_update = True
+                try:
+                    d.dispatch(self.op(ev[1:3]), m)
+                finally:
+                    if tag == 12:
+                        self.objs[ev[4]].leave_at_next_update = False
                 out = self.notified()
             elif tag == 1:
                 out = self.query(ev[1], ev[2])
@@ -498,4 +517,34 @@ def run_session(spec, filters, events, env=None):
 def model_case(spec, filters, events):
     # event 11 (a library observer attached outside the model world: it must not influence the dispatcher) is
     # a no-op for the model
-    return (1, [spec, filters, [[9, 0] if ev[0] == 11 else ev for ev in events]])
+    return (1, [spec, filters, [[9, 0] if ev[0] == 11 else ev for ev in expand_events(events)]])
+
+
+def expand_events(events):
+    """event 12 (dispatch during which observer idx unsubscribes itself) is, for the model, the dispatch followed
+    by the unsubscription: everybody subscribed when the dispatch was made is notified, then idx is gone"""
+    out = []
+    for ev in events:
+        if ev[0] == 12:
+            out.append([0] + list(ev[1:4]))
+            out.append([4, ev[4]])
+        else:
+            out.append(ev)
+    return out
+
+
+def expand_run(events, outs):
+    """the implementation's outputs aligned with expand_events (the unsubscription inside the notification
+    answers like an ordinary unsubscribe; it did not happen when the dispatch was rejected)"""
+    evs2, outs2 = [], []
+    for ev, o in zip(events, outs):
+        if ev[0] == 12:
+            evs2.append([0] + list(ev[1:4]))
+            outs2.append(o)
+            if o and o[0] == 0:
+                evs2.append([4, ev[4]])
+                outs2.append([0, []])
+        else:
+            evs2.append(ev)
+            outs2.append(o)
+    return evs2, outs2
